@@ -94,3 +94,60 @@ def run_file(text, name="file.c", debug=0, added=None):
         h = e.highlights[0] if e.highlights else None
         res["diags"].append((e.level, e.name, h.lineno if h else None, h.column if h else None, e.text))
     return res
+
+
+def run_file_traced(text, name="file.c", debug=0, added=None):
+    """like run_file, plus the statement trace observed at Context.pop_tokens (the observation point the C07
+    anchor names): one event per main-loop iteration:
+      (rule or None for an unrecognised token, tokens consumed, first line, first col, last token type,
+       scope name while the statement was matched, number of tokens left before)"""
+    from norminette.context import Context
+    from norminette.registry import Registry
+    from norminette.exceptions import CParsingError
+    global _REG
+    try:
+        reg = _REG
+    except NameError:
+        reg = _REG = Registry()
+    f = File(name, text)
+    out = io.StringIO()
+    res = dict(status=None, diags=[], fatal=None, exc=None, stdout="", events=[], ntokens=0)
+    events = res["events"]
+    try:
+        with contextlib.redirect_stdout(out):
+            tokens = list(Lexer(f))
+            res["ntokens"] = len(tokens)
+            ctx = Context(f, tokens, debug, added)
+            orig = ctx.pop_tokens
+
+            def pop_tokens(stop, _ctx=ctx, _orig=orig):
+                toks = _ctx.tokens
+                n = stop
+                first = toks[0] if toks else None
+                last = toks[min(n, len(toks)) - 1] if toks and n >= 1 else None
+                matched = bool(_ctx.history) and getattr(pop_tokens, "hist", 0) != len(_ctx.history)
+                pop_tokens.hist = len(_ctx.history)
+                events.append((_ctx.history[-1].name if matched else None, n,
+                               first.pos[0] if first else None, first.pos[1] if first else None,
+                               last.type if last else None, _ctx.scope.name, len(toks)))
+                return _orig(stop)
+            pop_tokens.hist = 0
+            ctx.pop_tokens = pop_tokens
+            reg.run(ctx)
+    except CParsingError as e:
+        res["fatal"] = e.msg
+    except RecursionError:
+        res["exc"] = "RecursionError"
+    except BaseException as e:  # noqa
+        import traceback
+        tb = traceback.extract_tb(e.__traceback__)
+        fr = [x for x in tb if "/norminette/" in x.filename]
+        where = f"{os.path.basename(fr[-1].filename)}:{fr[-1].name}" if fr else "?"
+        res["exc"] = f"{type(e).__name__}@{where}"
+    res["stdout"] = out.getvalue()
+    if res["fatal"] is None and res["exc"] is None:
+        res["status"] = f.errors.status
+    for e in f.errors:
+        h = e.highlights[0] if e.highlights else None
+        res["diags"].append((e.level, e.name, h.lineno if h else None, h.column if h else None, e.text))
+    return res
